@@ -65,6 +65,22 @@ def patcher_steps():
                    ["tmp_1", "tmp_1$", "tmp_2", "tmp_2$", "tmp_3"], names, "five hoists into one statement")]
     out += guarded("patch/order-and-fresh-names", step2)
 
+    # 2b. two textually identical calls are two calls (device state may change between them): each gets its own temporary
+    def step2b():
+        S = OpqStmt("S")
+        p = P()
+        p.visit_statement(S)
+
+        def same():
+            return E.BasicFunctionalExpression("run ecb_button", E.BasicExpressionList([E.BasicLiteral(0.0)]))
+        f1, f2, f3 = same(), same(), E.BasicFunctionalExpression("run ecb_int", E.BasicExpressionList([E.BasicFunctionCall("RND", E.BasicExpressionList([E.BasicLiteral(0.0)]))]))
+        f4 = E.BasicFunctionalExpression("run ecb_int", E.BasicExpressionList([E.BasicFunctionCall("RND", E.BasicExpressionList([E.BasicLiteral(0.0)]))]))
+        for f in (f1, f2, f3, f4):
+            p.visit_exp(f)
+        names = [f.var.name() for f in (f1, f2, f3, f4)]
+        return [ob("patch/identical calls stay separate", len(set(names)) == 4 and len(S.pre_assignment_statements) == 4, "4 temporaries, 4 calls", dict(temps=names, calls=len(S.pre_assignment_statements)))]
+    out += guarded("patch/identical calls stay separate", step2b)
+
     # 3. owner = the most recently visited statement
     def step3():
         S1, S2 = OpqStmt("S1"), OpqStmt("S2")
@@ -136,14 +152,15 @@ def replacement_protocol():
         for cls, hook, mk in [("BasicPrintStatement", "visit_print_statement", lambda: E.BasicPrintStatement(OpqExp("args"))),
                               ("BasicReadStatement", "visit_read_statement", lambda: E.BasicReadStatement([OpqExp("r")])),
                               ("BasicInputStatement", "visit_input_statement", lambda: E.BasicInputStatement(None, [OpqExp("r")]))]:
-            st = mk()
-            repl = OpqStmt("REPL")
-            S = E.BasicStatements([OpqStmt("s1"), st, OpqStmt("s3")])
-            opaque.reset()
-            S.visit(RecordingVisitor({id(st): "st"}, replace={hook: repl}))
-            ok = S.statements[1] is repl and S.statements[0]._opaque_tag == "s1" and S.statements[2]._opaque_tag == "s3"
-            hooks = [e for e in TRACE if e[0] == "hook" and e[1] == hook[6:]]
-            res.append(ob("statements/replace-%s" % cls, ok and len(hooks) == 1, "statement replaced by the hook's result, once", dict(replaced=ok, hook_calls=len(hooks))))
+            for multi in (True, False):
+                st = mk()
+                repl = OpqStmt("REPL")
+                S = E.BasicStatements([OpqStmt("s1"), st, OpqStmt("s3")], multi_line=multi)
+                opaque.reset()
+                S.visit(RecordingVisitor({id(st): "st"}, replace={hook: repl}))
+                ok = S.statements[1] is repl and S.statements[0]._opaque_tag == "s1" and S.statements[2]._opaque_tag == "s3"
+                hooks = [e for e in TRACE if e[0] == "hook" and e[1] == hook[6:]]
+                res.append(ob("statements/replace-%s,multi_line=%d" % (cls, multi), ok and len(hooks) == 1, "statement replaced by the hook's result, once (in one-line groups too: PRINT@ is one)", dict(replaced=ok, hook_calls=len(hooks))))
         return res
     return guarded("statements/replace", run)
 
